@@ -301,7 +301,7 @@ func vFFCase(r *vrng, out *vWriter, ci int) {
 	case sw < 6:
 		// supplied start within [0, maxr]
 		hasStart = true
-		switch r.intn(4) {
+		switch r.intn(8) {
 		case 0:
 			startV = maxr
 		case 1:
@@ -451,7 +451,7 @@ func vRateCase(r *vrng, out *vWriter, ci int) {
 		// .5 boundaries: delta*p/1000 = k + 0.5
 		delta = 500 * (2*r.rng(0, 50) + 1)
 	case 2:
-		delta = r.rng(0, 1<<uint(5+r.intn(45)))
+		delta = r.rng(0, 1<<uint(5+r.intn(36))) // <= 2^40: the proved domain (no int64 overflow of delta*p/1000)
 	default:
 		delta = r.rng(0, 5000)
 	}
@@ -544,8 +544,11 @@ func vTxCase(r *vrng, out *vWriter, ci int) {
 		panic(err)
 	}
 	rate := vPickRate(r)
-	if rate > 1<<34 {
-		rate = rate >> 6
+	if rate > 1<<24 {
+		rate = rate >> 16
+	}
+	if rate < 1 {
+		rate = 1
 	}
 	fee := rate * int64(weight) / 1000
 	tin, treq := vSums(view)
